@@ -207,6 +207,33 @@ pub fn run(tier: Tier) -> i32 {
             files.push((format!("gen/{i}"), print_module(&m, Layout::Space).text));
         }
     }
+    // every way a top-level definition can begin, as the definition right after the victim (what
+    // re-synchronises the top-level loop after damage that ends the victim's block early)
+    {
+        let neighbours = [
+            "opaque type O { O(a: Int) }",
+            "pub opaque type O { O(a: Int) }",
+            "type T { A B }",
+            "pub type T { A(x: Int) }",
+            "type Al = Int",
+            "pub type Al = List(Int)",
+            "const c = 1",
+            "pub const c: Int = 1",
+            "import a/b",
+            "import a/b.{c, type D} as e",
+            "fn n() { 0 }",
+            "pub fn n() { 0 }",
+            "@external(erlang, \"m\", \"f\")\nfn n() -> Int",
+            "@target(erlang)\nfn n() { 0 }",
+            "@external(javascript, \"m\", \"f\")\npub fn n(a: Int) -> Int",
+        ];
+        let victims_src = ["fn victim(x) { case x { 1 -> 2 _ -> 3 } }", "fn victim(x) { let y = #(x, [x]) y }", "type Victim { Va(f: Int, g: List(Int)) Vb }"];
+        for (vi, vs) in victims_src.iter().enumerate() {
+            for (k, nbr) in neighbours.iter().enumerate() {
+                files.push((format!("gen/neighbour-{vi}-{k}"), format!("fn before() {{ 0 }}\n{vs}\n{nbr}\nconst tail = 1\n")));
+            }
+        }
+    }
     let mut body_kinds_with_errors: BTreeSet<String> = BTreeSet::new();
     let mut body_kinds: BTreeSet<String> = BTreeSet::new();
     let mut distinct_damaged = 0u64;
@@ -333,7 +360,7 @@ pub fn run(tier: Tier) -> i32 {
             }
         }
     }
-    gen_layer.bound = format!("{gen_victims} victims generated from the reference grammar (every production as the body of a definition between fixed neighbours) x all single edits");
+    gen_layer.bound = format!("{gen_victims} victims generated from the reference grammar (every production as the body of a definition between fixed neighbours; and 3 victims followed by each of 15 ways a top-level definition can begin: opaque / pub opaque / plain types, aliases, constants, imports, functions, attributes) x all single edits");
     rep.layer(gen_layer);
     rep.distinct_nontrivial = distinct_damaged;
     rep.distinct_outcomes = 1 + rep.violations.iter().map(|v| v.class.clone()).collect::<BTreeSet<_>>().len() as u64;
